@@ -211,7 +211,8 @@ AfterEvery(cfg, o, o1, ln) ==
       fc1 == [e \in 1..Len(o1.snap) |->
                  IF e <= Len(o.fc) /\ o.fc[e] # <<>> THEN o.fc[e]
                  ELSE IF Complete(o1.snap[e]) THEN <<o1.snap[e]>> ELSE <<>>]
-      o2 == [o1 EXCEPT !.fc = fc1]
+      \* (obligations of early returns end when the child is done; dropping them keeps equal futures equal for the model checker)
+      o2 == [o1 EXCEPT !.fc = fc1, !.early = {z \in @ : ~(z.e <= Len(o1.snap) /\ o1.snap[z.e].sig /\ ResDone(o1.snap[z.e]))}]
       o3 == IF \E b \in DOMAIN o.hist : Range(o.hist[b]) \ Range(o1.hist[b]) # {} THEN Bump(o2, "evict") ELSE o2
       \* C08 / C03: an event is signalled complete although no bus has begun to process it yet (its handlers are still to come)
       premature == {W("C08.premature", e, "", "", 0, "") :
@@ -246,7 +247,8 @@ StepDisp(cfg, o, ln) ==
                       !.xpar = IF new THEN Append(@, IF ln.xp THEN ln.xpe ELSE 0) ELSE @,
                       !.acc = IF ok THEN [@ EXCEPT ![b] = Append(@, e)] ELSE @,
                       !.restart = IF b \in o.stopped THEN @ \cup {b} ELSE @,
-                      !.disp = Append(@, [b |-> b, e |-> e, out |-> ln.out, act |-> ln.act, drv |-> ln.drv, fw |-> ln.fw, xp |-> ln.xp, t |-> ln.t, nl |-> o.nl + 1])]
+                      !.open = IF ln.act # 0 /\ ~ln.fw /\ IsOpen(o, ln.act) THEN {IF z.act = ln.act THEN [z EXCEPT !.fresh = @ \cup {e}] ELSE z : z \in @} ELSE @,
+                      !.disp = Append(@, [b |-> b, e |-> e, out |-> ln.out, act |-> ln.act, drv |-> ln.drv, fw |-> ln.fw, xp |-> ln.xp, t |-> ln.t])]
       s == o.snap[e]
       w9 ==
         IF ~ok THEN {}
@@ -287,7 +289,7 @@ Excused6(cfg, o, x, y) ==
   \/ IsParallel(cfg, y.b) /\ \E z \in o.open : z.act # y.act /\ z.e = y.e /\ z.b = y.b /\ z.aw # 0
 
 StepEnter(cfg, o, ln) ==
-  LET x == [act |-> ln.act, b |-> ln.b, e |-> ln.e, h |-> ln.h, aw |-> 0, awim |-> FALSE, by |-> ln.byk, bya |-> ln.bya, t0 |-> ln.t,
+  LET x == [act |-> ln.act, b |-> ln.b, e |-> ln.e, h |-> ln.h, aw |-> 0, awim |-> FALSE, fresh |-> {}, by |-> ln.byk, bya |-> ln.bya, t0 |-> ln.t,
             dl |-> IF ln.tmo < 0 THEN -1 ELSE ln.t + ln.tmo, sync |-> ln.sync,
             enc |-> {y.act : y \in {z \in o.open : z.aw # 0}}]
       key == <<ln.b, ln.e, ln.h>>
@@ -344,21 +346,16 @@ StepExit(cfg, o, ln) ==
                 \cup (IF ln.out = "raise" /\ x.aw # 0 THEN {W("C04.raised", x.aw, x.b, x.h, x.act, "")} ELSE {})
        IN AddW(IF ln.out = "raise" THEN Bump(o1, "raise") ELSE IF ln.out = "cancel" THEN Bump(o1, "timeout") ELSE o1, w)
 
-StepOp(cfg, o, ln) == AddW(o, LateW(o, ln.act, ln.t, "op"))
+StepOp(cfg, o, ln) == AddW([o EXCEPT !.open = {IF z.act = ln.act /\ ~("op" \in DOMAIN ln /\ ln.op = "cl") THEN [z EXCEPT !.fresh = {}] ELSE z : z \in @}], LateW(o, ln.act, ln.t, "op"))
 
 StepReadBus(cfg, o, ln) ==
   IF ~IsOpen(o, ln.act) THEN o
   ELSE LET x == OpenAct(o, ln.act) IN
        AddW(o, IF ln.rb # x.b THEN {W("C09.event_bus", x.e, x.b, x.h, x.act, IF Len(o.snap[x.e].path) > 1 /\ ln.rb = Last(o.snap[x.e].path) THEN "lastpath" ELSE ln.rb)} ELSE {})
 
-\* the await begins in the very stretch in which this handler dispatched the event: nothing but further dispatches of the same handler
-\* lies between the Disp line and this line, so no other task has run in between (no run loop can have taken the event off its queue)
-ImmediateAwait(o, act, e) ==
-  LET mine == {i \in DOMAIN o.disp : o.disp[i].e = e /\ o.disp[i].act = act /\ ~o.disp[i].fw} IN
-  IF mine = {} THEN FALSE
-  ELSE LET i == CHOOSE j \in mine : \A k \in mine : j <= k
-           later == {k \in DOMAIN o.disp : k > i}
-       IN o.nl - o.disp[i].nl = Cardinality(later) /\ \A k \in later : o.disp[k].act = act /\ ~o.disp[k].fw
+\* the await begins in the very stretch in which this handler dispatched the event (`fresh`: what it has dispatched since it last
+\* suspended), so no other task has run in between and no run loop can have taken the event off its queue
+ImmediateAwait(o, act, e) == IsOpen(o, act) /\ e \in OpenAct(o, act).fresh
 StepAwB(cfg, o, ln) ==
   IF ~IsOpen(o, ln.act) THEN o
   ELSE LET x == OpenAct(o, ln.act) IN
@@ -378,7 +375,7 @@ WhyNotDone(o, d) ==
 StepAwE(cfg, o, ln) ==
   IF ~IsOpen(o, ln.act) THEN o
   ELSE LET x == OpenAct(o, ln.act)
-           o1 == Bump([o EXCEPT !.open = (@ \ {x}) \cup {[x EXCEPT !.aw = 0]}], "awE")
+           o1 == Bump([o EXCEPT !.open = (@ \ {x}) \cup {[x EXCEPT !.aw = 0, !.awim = FALSE, !.fresh = {}]}], "awE")
            nd == NotDone(o, ln.e)
            w == IF ln.canc THEN {}
                 ELSE (IF ~ln.same THEN {W("C04.identity", ln.e, x.b, x.h, x.act, "")} ELSE {})
